@@ -128,6 +128,7 @@ struct Hist {
     regex_events: u64,
     stale: u64,
     reuse: u64,
+    ties: u64,
 }
 
 fn drain_stale(viol: &mut Vec<(String, serde_json::Value)>, rules: &[String], history: &[String]) -> (u64, u64, u64) {
@@ -185,7 +186,7 @@ fn engine_histories(ctx: &mut Ctx) {
             let maxops = if r.chance(1, 5) { 50 } else { 25 };
             let nops = 10 + r.below(maxops);
             let mut history: Vec<String> = vec![];
-            let mut h = Hist { evals: 0, nt: false, viol: vec![], sample: json!(null), state_changes: 0, regex_events: 0, stale: 0, reuse: 0 };
+            let mut h = Hist { evals: 0, nt: false, viol: vec![], sample: json!(null), state_changes: 0, regex_events: 0, stale: 0, reuse: 0, ties: 0 };
             let reqs: Vec<gen::Req> = (0..4).map(|_| gen_request(&mut r, &rules)).collect();
             let pages = ["https://ads.net/", "https://sub.ads.net/p", "https://www.example.org/", "https://track.io/x", "https://x.b.co.uk/"];
             let mut queries_after_change = 0u64;
@@ -201,7 +202,9 @@ fn engine_histories(ctx: &mut Ctx) {
                             if h.state_changes > 0 {
                                 queries_after_change += 1;
                             }
-                            if !got.same_verdict(&want) {
+                            if !got.same_verdict(&want) && differs_only_by_redirect_tie(&got, &want, &rules, &tags, &rq, &q.url, &scriptlet_resources()) {
+                                h.ties += 1;
+                            } else if !got.same_verdict(&want) {
                                 h.viol.push((
                                     "C06:network-answer-depends-on-history".into(),
                                     json!({"rules": rules, "history": history, "enabled_tags": tags, "optimize": optimize, "debug": debug,
@@ -321,7 +324,9 @@ fn engine_histories(ctx: &mut Ctx) {
                                 let got = ask(&e, &rq);
                                 let want = ask(&fresh(&rules, &tags, debug, optimize), &rq);
                                 h.evals += 1;
-                                if !got.same_verdict(&want) {
+                                if !got.same_verdict(&want) && differs_only_by_redirect_tie(&got, &want, &rules, &tags, &rq, &q.url, &scriptlet_resources()) {
+                                    h.ties += 1;
+                                } else if !got.same_verdict(&want) {
                                     history.push(format!("check({}, {}, {})", q.url, q.source, q.rtype));
                                     h.viol.push((
                                         "C06:network-answer-depends-on-history".into(),
@@ -375,7 +380,7 @@ fn miri_history(ctx: &mut Ctx) {
             let mut tags: BTreeSet<String> = BTreeSet::new();
             let mut e = fresh(&rules, &tags, true, false);
             let mut history: Vec<String> = vec![];
-            let mut h = Hist { evals: 0, nt: false, viol: vec![], sample: json!(null), state_changes: 0, regex_events: 0, stale: 0, reuse: 0 };
+            let mut h = Hist { evals: 0, nt: false, viol: vec![], sample: json!(null), state_changes: 0, regex_events: 0, stale: 0, reuse: 0, ties: 0 };
             let steps: Vec<(&str, Vec<&str>)> = vec![("use", vec!["t1"]), ("q", vec![]), ("use", vec![]), ("use", vec!["t2"]), ("q", vec![]), ("reload", vec![]), ("q", vec![])];
             for (op, arg) in steps {
                 match op {
@@ -429,6 +434,7 @@ fn absorb(ctx: &mut Ctx, sub: &str, idx: u64, out: Result<Hist, String>) {
             ctx.obs("state_changes", h.state_changes as i64);
             ctx.obs("regex_compile_or_hit_events", h.regex_events as i64);
             ctx.obs("stale_regex_events", h.stale as i64);
+            ctx.obs("answers_differing_only_by_an_equal_priority_redirect_tie", h.ties as i64);
             ctx.obs("rule_addresses_seen_with_more_than_one_regex_source_(allocator_reuse,_all_engines_of_the_history)", h.reuse as i64);
             if h.nt {
                 ctx.nontrivial(fnv(&h.sample.to_string()));
@@ -439,6 +445,21 @@ fn absorb(ctx: &mut Ctx, sub: &str, idx: u64, out: Result<Hist, String>) {
             }
         }
     }
+}
+
+/// Two answers that differ only in `redirect` are still equal for this property if both values are
+/// among the resources of the equal-highest-priority matching redirect rules: which of several
+/// equal-priority redirects wins is left open by the statement (C13 treats it as set-valued), and
+/// it legitimately depends on bucket order, which `add_filter` and batch construction choose
+/// differently.
+fn differs_only_by_redirect_tie(got: &Answer, want: &Answer, rules: &[String], tags: &BTreeSet<String>, rq: &Request, url: &str, resdefs: &[gen::ResDef]) -> bool {
+    if got.matched != want.matched || got.important != want.important || got.exception != want.exception || got.rewritten != want.rewritten || got.csp != want.csp {
+        return false;
+    }
+    let mut scan = crate::oracle::scan::Scan::new(rules, ParseOptions::default());
+    let tagset: HashSet<String> = tags.iter().cloned().collect();
+    let v = scan.verdict(rq, url, &tagset, &crate::oracle::resources::ResModel { defs: resdefs });
+    v.redirect_ok.len() > 1 && v.redirect_ok.contains(&got.redirect) && v.redirect_ok.contains(&want.redirect)
 }
 
 fn blocker_answer(b: &Blocker, res: &ResourceStorage, rq: &Request) -> Answer {
@@ -490,7 +511,7 @@ fn blocker_histories(ctx: &mut Ctx) {
             // (C05: optimisation changes no verdict).
             let mut b = fresh_blocker(&rules, &tags, false);
             let mut history: Vec<String> = vec![format!("Blocker::new({} rules)", rules.len())];
-            let mut h = Hist { evals: 0, nt: false, viol: vec![], sample: json!(null), state_changes: 0, regex_events: 0, stale: 0, reuse: 0 };
+            let mut h = Hist { evals: 0, nt: false, viol: vec![], sample: json!(null), state_changes: 0, regex_events: 0, stale: 0, reuse: 0, ties: 0 };
             let nops = 10 + r.below(30);
             let mut reqs: Vec<gen::Req> = (0..4).map(|_| gen_request(&mut r, &all)).collect();
             let mut queries_after_change = 0;
@@ -506,7 +527,9 @@ fn blocker_histories(ctx: &mut Ctx) {
                             if h.state_changes > 0 {
                                 queries_after_change += 1;
                             }
-                            if !got.same_verdict(&want) {
+                            if !got.same_verdict(&want) && differs_only_by_redirect_tie(&got, &want, &rules, &tags, &rq, &q.url, &resdefs) {
+                                h.ties += 1;
+                            } else if !got.same_verdict(&want) {
                                 h.viol.push((
                                     "C06:blocker-answer-depends-on-history".into(),
                                     json!({"rules_in_model_order": rules, "history": history, "enabled_tags": tags,
